@@ -398,7 +398,16 @@ def gen_toml_text(rng, deps, present):
         body = "[tool.poetry]\nname = \"proj\"\nversion = \"1.0\"\n\n[tool.poetry.dependencies]\npython = \"^3.9\"\n"
         for d in decl:
             r = Requirement(re.sub(r"\s*;.*$", "", d))
-            body += f'{r.name} = "{str(r.specifier) or "*"}"\n'
+            spec, k = str(r.specifier), rng.random()
+            if not spec:
+                val = '"*"'
+            elif spec.startswith("==") and k < 0.5:
+                val = '"%s"' % spec[2:]                                   # bare version = exact pin in poetry
+            elif r.extras or k > 0.85:
+                val = '{version = "%s", extras = ["x"]}' % spec          # table form
+            else:
+                val = '"%s"' % spec
+            body += f'{r.name} = {val}\n'
         body += "\n[tool.poetry.group.dev.dependencies]\npytest = \"*\"\n"
     elif form == "pep621_nodeps":
         body = "[project]\nname = \"proj\"\nversion = \"1.0\"\n"
@@ -787,7 +796,9 @@ def part_cfg(ctx, n):
             ctx.violation("kf_setupcfg_inline_list" if inline and len(m["deps"]) > 1 else "c14_cfg_exception",
                           f"setup.cfg writer raised {m['res']['exc']} on {text!r} + {m['deps']} (file afterwards {m['after']!r})", replay)
         if i in spec_bad:
-            if explained in ("kf_setupcfg_dupline", "kf_setupcfg_no_final_newline"):
+            if "\r" in text and i not in modnl_bad:
+                ctx.violation("kf_manifest_crlf", f"setup.cfg with CRLF line endings {text!r} rewritten as {m['after']!r}: line endings converted to LF", replay)
+            elif explained in ("kf_setupcfg_dupline", "kf_setupcfg_no_final_newline"):
                 ctx.violation(explained, f"setup.cfg {text!r} + {m['deps']} became {m['after']!r}: new requirement lines are not "
                               "inserted (alone) after the last install_requires line", replay)
             elif other_spelling(m["deps"], m["res"]["names"], m["after"]):
@@ -796,8 +807,6 @@ def part_cfg(ctx, n):
             elif inline:
                 ctx.violation("kf_setupcfg_inline_list", f"setup.cfg {text!r} + {m['deps']} became {m['after']!r} (kind {m['res']['kind']}): "
                               "the inline install_requires value is not read as a list of requirements", replay)
-            elif "\r" in text and i not in modnl_bad:
-                ctx.violation("kf_manifest_crlf", f"setup.cfg with CRLF line endings {text!r} rewritten as {m['after']!r}: line endings converted to LF", replay)
             else:
                 ctx.violation("c14_cfg_spec", f"setup.cfg {text!r} + {m['deps']} (dry_run={m['dry']}) became {m['after']!r} (kind {m['res']['kind']}): "
                               "not 'new lines with the list's indentation right after the last install_requires line, rest untouched'", replay)
@@ -868,6 +877,42 @@ def declared_count(files: dict, key: str):
                 return None
             total += names.count(key)
     return total
+
+
+def single_quoted_declares(text: str, key: str) -> bool:
+    """setup.py declares the package in a single-quoted string literal"""
+    for s in re.findall(r"'([^'\n]*)'", text):
+        try:
+            if canon(Requirement(s).name) == key:
+                return True
+        except InvalidRequirement:
+            pass
+    return False
+
+
+def classify_redeclared(before: dict, changed: list, key: str) -> str:
+    """the package was declared before the run and is declared MORE often afterwards: which known defect explains it.
+    A manifest that declares it and was extended all the same did not recognise its own entry; otherwise the
+    declaring manifest answered None and a later one received the requirement."""
+    for rel in changed:
+        base = rel.rsplit("/", 1)[-1]
+        try:
+            names, _ = ref_names_of(base, before[rel])
+        except Exception:
+            continue
+        if key not in names:
+            continue
+        text = before[rel]
+        if base == "pyproject.toml" and poetry_declares({"pyproject.toml": text}, key):
+            return "kf_poetry_entry_unrecognised"
+        if base == "setup.cfg" and ref_cfg(text)["form"] == "inline":
+            return "kf_setupcfg_inline_list"
+        if base == "requirements.txt" and key in ref_req(text)[3]:
+            return "kf_req_continuation_undeclared"
+        if base == "setup.py" and single_quoted_declares(text, key):
+            return "kf_setuppy_single_quoted_unrecognised"
+        return "c14_declared_not_recognised"
+    return "kf_declared_elsewhere_fallthrough"
 
 
 class _StubCodemod:
@@ -982,9 +1027,9 @@ def part_loop(ctx, n):
                             if comp:
                                 ctx.violation("c14_" + KIND_OF[base].lower() + "_reparse", f"{rel}: {res['before'][rel]!r} -> {res['after'][rel]!r}: " + "; ".join(comp), replay)
                     if cb >= 1 and ca != cb:
-                        ctx.violation("kf_declared_elsewhere_fallthrough",
-                                      f"{key!r} was declared {cb}x in the project ({[r for r in files]}) and is declared {ca}x afterwards: "
-                                      f"the manifest that declares it answered None and a later one ({res['changed']}) received it", replay)
+                        ctx.violation(classify_redeclared(res["before"], res["changed"], key),
+                                      f"{key!r} was declared {cb}x in the project ({[r for r in files]}) and is declared {ca}x afterwards "
+                                      f"(changed: {res['changed']}): " + "; ".join(f"{r}: {res['before'][r]!r} -> {res['after'][r]!r}" for r in res["changed"]), replay)
                     elif cb == 0 and any(res["outs"]) and ca != 1:
                         ctx.violation("c14_new_requirement_count", f"{key!r} declared {ca}x in the project afterwards, expected once: {res['after']}", replay)
     bad = core.eval_bad_indices(ctx, "c14_loop", IMPORTS, "loop_case", coq_cases, ["loop_model_ok", "loop_spec_ok"], chunk=400)
@@ -1129,7 +1174,9 @@ def judge_cli(ctx, jobs, results):
             if "\r" in res["before"][rel] and not res["mid"][rel].startswith(res["before"][rel].rstrip("\r\n")):
                 ctx.violation("kf_manifest_crlf", f"{rel} with CR line endings {res['before'][rel]!r} rewritten as {res['mid'][rel]!r}", replay)
         if cb >= 1 and cm != cb:
-            ctx.violation("kf_declared_elsewhere_fallthrough", f"{key!r} declared {cb}x before and {cm}x after the run over {sorted(files)}; changed {changed}", replay)
+            ctx.violation(classify_redeclared(res["before"], changed, key),
+                          f"{key!r} declared {cb}x before and {cm}x after the run over {sorted(files)}; changed {changed}: "
+                          + "; ".join(f"{r}: {res['before'][r]!r} -> {res['mid'][r]!r}" for r in changed), replay)
         elif cb == 0 and changed and cm != 1:
             hashcont = any("\\" in res["before"][rel] for rel in files)
             ctx.violation("c14_new_requirement_count", f"{key!r} declared {cm}x after the run, expected once: {res['mid']}", replay)
@@ -1137,7 +1184,8 @@ def judge_cli(ctx, jobs, results):
         if res["r2"] is None or res["r2"]["rc"] != 0:
             ctx.violation("c14_cli_failed", f"second run exited {res['r2'] and res['r2']['rc']}", replay)
         elif res["after"] != res["mid"] and cm >= 1:
-            ctx.violation("kf_declared_elsewhere_fallthrough" if cb >= 1 or declared_count(res["after"], key) != cm else "c14_second_run",
+            changed2 = [rel for rel in files if res["mid"][rel] != res["after"][rel]]
+            ctx.violation(classify_redeclared(res["mid"], changed2, key) if declared_count(res["after"], key) != cm else "c14_second_run",
                           f"second run changed the manifests again: {res['mid']} -> {res['after']}", replay)
 
 
